@@ -12,6 +12,7 @@ import (
 	"runtime/pprof"
 	"sort"
 	"strings"
+	"sync"
 	"time"
 
 	"golang.org/x/tools/go/packages"
@@ -55,6 +56,8 @@ type Loaded struct {
 	repo            string
 	verifDir        string
 	loadTime        time.Duration
+	bigMu           sync.Mutex
+	bigInits        map[*ssa.Package]*bigInitInfo
 }
 
 func (h *HarnessSpec) interceptFor(L *Loaded, name, oname string) *ssa.Function {
@@ -117,12 +120,12 @@ func buildOverlay(repo, verifDir string, pkgDirs []string) (map[string][]byte, m
 				}
 				intercepts[pd][h][callee] = model
 			}
-			ov[filepath.Join(repo, pd, e.Name())] = src
+			ov[filepath.Join(repo, repoDirOf(pd), e.Name())] = src
 		}
 		if pkgName == "" {
 			return nil, nil, fmt.Errorf("no harness files in %s", dir)
 		}
-		ov[filepath.Join(repo, pd, "zz_verif_rt.go")] = []byte(strings.Replace(string(rt), "package PKGNAME", "package "+pkgName, 1))
+		ov[filepath.Join(repo, repoDirOf(pd), "zz_verif_rt.go")] = []byte(strings.Replace(string(rt), "package PKGNAME", "package "+pkgName, 1))
 	}
 	return ov, intercepts, nil
 }
@@ -142,7 +145,7 @@ func loadProgram(repo, verifDir string, pkgDirs []string) (*Loaded, map[string]m
 	}
 	var patterns []string
 	for _, pd := range pkgDirs {
-		patterns = append(patterns, "./"+pd)
+		patterns = append(patterns, "./"+repoDirOf(pd))
 	}
 	initial, err := packages.Load(cfg, patterns...)
 	if err != nil {
@@ -165,7 +168,7 @@ func loadProgram(repo, verifDir string, pkgDirs []string) (*Loaded, map[string]m
 	prog.Build()
 	fmt.Printf("packages.Load %.1fs, ssa build %.1fs\n", tLoad.Seconds(), (time.Since(t0) - tLoad).Seconds())
 	L := &Loaded{prog: prog, pkgs: map[string]*ssa.Package{}, sizes: &types.StdSizes{WordSize: 8, MaxAlign: 8},
-		solverTimeoutMs: 60000, overlay: ov, repo: repo, verifDir: verifDir}
+		solverTimeoutMs: 60000, overlay: ov, repo: repo, verifDir: verifDir, bigInits: map[*ssa.Package]*bigInitInfo{}}
 	for _, p := range prog.AllPackages() {
 		L.pkgs[p.Pkg.Path()] = p
 	}
@@ -178,8 +181,17 @@ func loadProgram(repo, verifDir string, pkgDirs []string) (*Loaded, map[string]m
 
 const repoModule = "github.com/libp2p/go-libp2p-kad-dht"
 
+// repoDirOf maps a harness directory name to the repository directory
+// ("root" is the module's top-level package).
+func repoDirOf(pd string) string {
+	if pd == "root" {
+		return "."
+	}
+	return pd
+}
+
 func pkgPathOf(dir string) string {
-	if dir == "." || dir == "" {
+	if dir == "." || dir == "" || dir == "root" {
 		return repoModule
 	}
 	return repoModule + "/" + dir
